@@ -128,6 +128,24 @@ def placeExplains (tk : Task) (sv : Served) (single : Bool) : Bool :=
       (if single then sv.fin == max sv.arr w.1 + pl.dur
        else sv.start == max sv.arr w.1 && sv.fin - sv.start == pl.dur))))
 
+/-- does the place explain location and timing of the activity, whatever the tags say ? -/
+def placeFits (pl : Place) (sv : Served) (single : Bool) : Bool :=
+  pl.loc == sv.loc &&
+  (if pl.tws.isEmpty then
+    (if single then sv.fin - sv.arr == pl.dur else sv.start == sv.arr && sv.fin - sv.start == pl.dur)
+   else pl.tws.any (fun w =>
+    decide (sv.arr ≤ w.2) &&
+    (if single then sv.fin == max sv.arr w.1 + pl.dur
+     else sv.start == max sv.arr w.1 && sv.fin - sv.start == pl.dur)))
+
+/-- C03, tag clause: the tag reported with an activity is the tag of the place that was actually used - among the places
+    of the job's tasks of this kind that explain the activity's location and timing, one carries exactly the reported
+    tag (no tag reported = an untagged place). Nothing is demanded when no place explains the activity at all: that is
+    a matter of feasibility (C01), not of reporting. -/
+def tagOk (j : Job) (sv : Served) (single : Bool) : Bool :=
+  let cands := ((j.tasks.filter (fun tk => tk.kind == sv.act.type)).flatMap (·.places)).filter (fun pl => placeFits pl sv single)
+  cands.isEmpty || cands.any (fun pl => pl.tag == sv.act.tag)
+
 /-! ## C01 — hard constraints -/
 
 def subset (a b : List String) : Bool := a.all b.contains
@@ -322,6 +340,13 @@ def replay (p : Problem) (s : Solution) : List String := Id.run do
         if (inStop.getLast?.map (·.fin)) != some st.departure then
           errs := s!"{name}: stop {i} departure is not the end of its last activity" :: errs
       if st.arrival > st.departure then errs := s!"{name}: stop {i} departs before it arrives" :: errs
+    -- the reported tag is the tag of the place used
+    for x in sv do
+      if isJobType x.act.type then
+        let some j := p.findJob x.act.jobId | continue
+        let single := (t.stops[x.stopIdx]?.map (·.activities.length)).getD 0 == 1
+        if !tagOk j x single then
+          errs := s!"{name}: {j.id} {x.act.type} at stop {x.stopIdx} reports tag {x.act.tag}, which no place explaining it carries" :: errs
     -- timing split
     let serving := (sv.filter (fun x => isJobType x.act.type || x.act.type == "reload")).foldl (fun acc x =>
       acc + (match (p.findJob x.act.jobId).bind (fun j => taskOf j x.act) with
